@@ -274,6 +274,12 @@ def _split_expr_over_interface(expr, interface, tests=None, trials=None):
 
     for a in args:
         expr = expr.subs({avg(a): (minus(a) + plus(a))/2})
+
+    # the restriction of grad(w), div(w), ... is grad, div, ... of the restricted w
+    for a in expr.atoms(minus, plus):
+        arg = a.args[0]
+        if isinstance(arg, _diff_ops) and len(arg.args) == 1:
+            expr = expr.subs(a, type(arg)(type(a)(arg.args[0])))
     # ...
 
     # ...
